@@ -166,7 +166,7 @@ func (r *Rng) port() string {
 	return r.Pick([]string{"80", "443", "21", "8080", "0", "65535", "65536", "99999999999999999999", "", "080", "0080", "00000000000000080", "8a", "a", "-1", "+1", " 80", "80 ", "4\t43", "１", "%38%30"})
 }
 
-var segs = []string{"a", "b", "c", "foo", "bar.html", ".", "..", "%2e", "%2E%2e", ".%2E", "%2e.", "...", "", "", "a b", "a%20b", "%41", "é", "%zz", "%", "C:", "C|", "c|", "CC|", "1:", "a;b", "a:b", "@", "~", "{x}", "`", "a\"b", "<>", "\xff", "%2F", "%5c", "^", "|", "[", "]", "'", "!", "$&", "*+,", "=", "\u2028", "\ufffd", "\U0001F600", "a\tb", "a\nb"}
+var segs = []string{"%25%2537E", "%%%33%37E", "%25%25361", "%%37E", "a", "b", "c", "foo", "bar.html", ".", "..", "%2e", "%2E%2e", ".%2E", "%2e.", "...", "", "", "a b", "a%20b", "%41", "é", "%zz", "%", "C:", "C|", "c|", "CC|", "1:", "a;b", "a:b", "@", "~", "{x}", "`", "a\"b", "<>", "\xff", "%2F", "%5c", "^", "|", "[", "]", "'", "!", "$&", "*+,", "=", "\u2028", "\ufffd", "\U0001F600", "a\tb", "a\nb"}
 
 func (r *Rng) path() string {
 	n := r.Intn(5)
@@ -185,7 +185,7 @@ func (r *Rng) path() string {
 	return sb.String()
 }
 
-var queryBits = []string{"a=1", "b=2", "a=3", "q", "=", "=v", "k=", "a&b", "&&", "a=b=c", "x=%41", "x=1+1", "x=%2B", "x=%26", "n%3Dm=v", "é=ü", "%ff=1", "a b=c d", "a'b", "\"q\"", "<q>", "#", "?", "??", "a;b", "%", "%4", "%zz", "sp=%20", "\xff", "`", "{}", "|", "^", "\\", "[]", "Z=1", "z=1", "A=1", "\U0001F600=1", "\uE000=1"}
+var queryBits = []string{"k=%25%2537E", "%%36%31=%%37E", "a=1", "b=2", "a=3", "q", "=", "=v", "k=", "a&b", "&&", "a=b=c", "x=%41", "x=1+1", "x=%2B", "x=%26", "n%3Dm=v", "é=ü", "%ff=1", "a b=c d", "a'b", "\"q\"", "<q>", "#", "?", "??", "a;b", "%", "%4", "%zz", "sp=%20", "\xff", "`", "{}", "|", "^", "\\", "[]", "Z=1", "z=1", "A=1", "\U0001F600=1", "\uE000=1"}
 
 func (r *Rng) query() string {
 	n := 1 + r.Intn(4)
@@ -197,7 +197,7 @@ func (r *Rng) query() string {
 }
 
 func (r *Rng) fragment() string {
-	return r.Pick([]string{"f", "", "frag ment", "a#b", "a?b", "é", "%41", "%", "%zz", "`", "<>", "\"", "{}", "|", "^", "\xff", "a\tb", "top", "!$&'()*+,;=", "\u0000", " ", "  x  ", "/..", "\U0001F600"})
+	return r.Pick([]string{"f", "", "frag ment", "a#b", "#x", "##x", "%23%23x", "%2523x", "%25%32%33", "%%32%33a", "#", "a?b", "é", "%41", "%", "%zz", "`", "<>", "\"", "{}", "|", "^", "\xff", "a\tb", "top", "!$&'()*+,;=", "\u0000", " ", "  x  ", "/..", "\U0001F600"})
 }
 
 // absolute URL text
